@@ -33,7 +33,7 @@ def setup(i):
     sh('git', '-C', '/repo', 'worktree', 'add', '--detach', w + '/repo', 'HEAD')
     v = w + '/verif'
     os.makedirs(v + '/.work')
-    for d in ('vf', 'units', 'replay', 'replays_known', 'tools'):
+    for d in ('vf', 'units', 'replay', 'replays_known', 'tools', 'corpus'):
         if os.path.isdir(ROOT + '/' + d):
             shutil.copytree(ROOT + '/' + d, v + '/' + d, ignore=shutil.ignore_patterns('__pycache__', 'target'))
     for f in ('check', 'known_findings.json', 'properties.jsonl'):
@@ -63,6 +63,18 @@ def worker(i):
         t0 = time.time()
         p = sh(w + '/verif/check', pid, 'quick', cwd=w + '/verif', env=env)
         sh('git', '-C', w + '/repo', 'checkout', '--', '.')
+        # harvest the counterexamples into the regression corpus (deduplicated, at most 40 per property)
+        harvested = []
+        rdir = w + '/verif/replays'
+        if p.returncode == 1 and os.path.isdir(rdir):
+            for fn in os.listdir(rdir):
+                try:
+                    ce = json.load(open(rdir + '/' + fn)).get('counterexample')
+                except Exception:
+                    ce = None
+                if ce and ce.get('replay_kind') != 'pair_key' and '[regression corpus]' not in ce.get('why', ''):
+                    harvested.append(dict(case=ce['case'], replay_kind=ce['replay_kind'], from_seed=s))
+            shutil.rmtree(rdir, ignore_errors=True)
         lines = [l for l in p.stdout.split('\n') if l.startswith(('VIOLATION', 'FAILED-OBLIGATION', 'UNDECIDED'))]
         obl = [l.split('obligation=')[1][:110] for l in lines if l.startswith('FAILED-OBLIGATION')]
         how = 'not detected'
@@ -74,6 +86,16 @@ def worker(i):
         meta['detected_by'] = dict(check=pid, how=how, obligations=obl[:4])
         with lock:
             res[s] = r
+            if harvested and os.environ.get('HARVEST'):
+                os.makedirs(ROOT + '/corpus', exist_ok=True)
+                cp = '%s/corpus/%s.jsonl' % (ROOT, pid)
+                have = [l.strip() for l in open(cp)] if os.path.exists(cp) else []
+                keys = {json.dumps(json.loads(l)['case'], sort_keys=True) for l in have if l}
+                for h in harvested:
+                    kk = json.dumps(h['case'], sort_keys=True)
+                    if kk not in keys and len(have) < 40:
+                        have.append(json.dumps(h, sort_keys=True)); keys.add(kk)
+                open(cp, 'w').write('\n'.join(have) + '\n')
             json.dump(meta, open('%s/seeded/%s/meta.json' % (ROOT, s), 'w'), indent=1)
             json.dump(res, open(ROOT + '/seeded/RESULTS.json', 'w'), indent=1)
             print(s, r['exit'], how, obl[:2], flush=True)
